@@ -23,21 +23,30 @@ fn mk(cfg: &str, steps: &str, fin: &str, origin: &str) -> Case {
     }
 }
 
+/// stable class keys of the open StreamWriter panics: by panic MESSAGE (line numbers move with every repair)
 fn panic_class(case: &Case, msg: &str) -> String {
     let loc = msg.rsplit(" @ ").next().unwrap_or("?").to_string();
     let line = panic_line(msg);
-    if case.cfg.fc.is_some() {
+    if case.cfg.fc.is_some() && expected_with_info_err(&case.cfg).is_some() {
         return match line {
             Some(l) => format!("panic/with-info-fctl/{}", l),
             None => format!("panic/with-info-fctl/{}", loc),
         };
     }
-    match line {
-        Some(1288) => "panic/stream-small-buffer".into(),
-        Some(1690) => "panic/stream-fctl-io-then-write".into(),
-        Some(1254) => "panic/stream-set-fctl".into(),
-        Some(l) => format!("panic/encoder.rs:{}", l),
-        None => format!("panic/{}", loc),
+    if msg.contains("range end index 4 out of range") {
+        // N1: `self.buffer[0..4]` in ChunkWriter::write
+        "panic/stream-small-buffer".into()
+    } else if msg.contains("entered unreachable code") {
+        // N2: the `unreachable!()` arms on `Wrapper`
+        "panic/stream-fctl-io-then-write".into()
+    } else if msg.contains("must be called on an animated PNG") {
+        // N9: `set_fctl`
+        "panic/stream-set-fctl".into()
+    } else {
+        match line {
+            Some(l) => format!("panic/encoder.rs:{}", l),
+            None => format!("panic/{}", loc),
+        }
     }
 }
 
@@ -54,6 +63,8 @@ pub fn oracles(case: &Case, obs: &Observed) -> Vec<Finding> {
     for p in &obs.panics {
         f.push(("oracle", panic_class(case, p), format!("a writer call panicked: {}", p.chars().take(200).collect::<String>())));
     }
+    // 2a. the repaired refusals (with_info, first image = canvas, indexed without palette)
+    f.extend(repaired_misuse_oracles(case, obs));
     // 2. misuse is Err
     let mut stream_seen = false;
     for c in &obs.calls {
@@ -61,7 +72,7 @@ pub fn oracles(case: &Case, obs: &Observed) -> Vec<Finding> {
             stream_seen = true;
         }
         if let Some(m) = c.misuse {
-            if c.res == "ok" {
+            if c.res == "ok" && m != "first-image-subframe" && m != "indexed-no-palette" {
                 let key = if m == "beyond-declared" && stream_seen { "stream-first-image-not-counted".to_string() } else { format!("misuse-accepted/{}", m) };
                 f.push(("oracle", key, format!("{} ({}) returned Ok although it is misuse: {}", c.kind.name(), c.what, m)));
             }
@@ -318,7 +329,7 @@ fn abort_probe(ctx: &mut Ctx) {
             #[cfg(not(unix))]
             let signalled = st.code().is_none();
             if signalled {
-                ctx.rep.violation("oracle", "abort/stream-small-buffer", "animated writer + stream buffer smaller than 4 bytes: the process aborts (panic at encoder.rs:1288 inside a destructor while unwinding from the same panic)", cj);
+                ctx.rep.violation("oracle", "abort/stream-small-buffer", "animated writer + stream buffer smaller than 4 bytes: the process aborts (slice panic in ChunkWriter::write, again inside a destructor while unwinding from the same panic)", cj);
             } else {
                 let text = std::fs::read_to_string(&out).unwrap_or_default();
                 let j = crate::json::parse(&text).unwrap_or(J::Null);
